@@ -119,8 +119,9 @@ func c15Short(fn string) string {
 	return strings.TrimSuffix(fn, ".func1")
 }
 
-// per-item functions of units that the table lists as NOT wrapped: a consumption outside every
-// wrap with one of these on the stack belongs to that unit
+// per-item functions of the units: a consumption OUTSIDE every wrap with one of these on the stack
+// belongs to that unit and is reported as unwrapped (the table must say the same); a panic that
+// leaves a hook is attributed to the unit whose function is on the stack
 var c15UnwrappedMarkers = map[string]string{
 	"Keeper.LiquidateIndividualBorrow":    "v2.borrow",
 	"Keeper.CheckStatsForSurplusAndDebt": "v2.surplusdebt",
@@ -154,6 +155,7 @@ func c15RootMarker() string {
 // which unit of Model/Hooks.v a wrap instance is (by the function that opened it)
 var c15UnitOfCaller = map[string]string{
 	"liquidationsV2/keeper.Keeper.LiquidateVaults":     "v2.vault",
+	"liquidationsV2/keeper.Keeper.LiquidateBorrows":    "v2.borrow", // wrapped per item since fix C09-F3 / C15-F1
 	"liquidation/keeper.Keeper.LiquidateVaults":        "v1.vault",
 	"liquidation/keeper.Keeper.LiquidateBorrows":       "v1.borrow",
 	"auction.BeginBlocker":                             "v1.surplus",
